@@ -218,7 +218,9 @@ pub fn check_case(case: &Case, r: &mut CaseResult, with_features: bool) {
         r.label("damage-produces-syntax-diagnostics");
     }
     // navigation in an undamaged declaration still answers as before
-    if with_features && ok_shape {
+    // (not when the damage inserts an identifier: it may legitimately become a declaration name -
+    // e.g. a second `main` - and change what names in other declarations resolve to)
+    if with_features && ok_shape && !ident_damage {
         let toks = &case.rendered.toks;
         let cand: Vec<usize> = (0..toks.len())
             .filter(|i| toks[*i].decl != k && matches!(toks[*i].role, Role::Use(Bind::Param(..)) | Role::Use(Bind::Local(..)) | Role::Decl(Bind::Param(..)) | Role::Decl(Bind::Local(..))))
